@@ -877,3 +877,16 @@ CORPUS += [
     V("C20", "warmup-wraps-with-inner-baseline-at-alpha-zero", BLF, "        if self.alpha > 0:\n            return self.baseline.wrap_dataset", "        if self.alpha >= 0:\n            return self.baseline.wrap_dataset", "C20.d"),
     V("C20", "eq-warmup-wrap-guard-mirrored", BLF, "        if self.alpha > 0:\n            return self.baseline.wrap_dataset", "        if 0 < self.alpha:\n            return self.baseline.wrap_dataset", None),
 ]
+
+# ---- term polarity of matched constraint literals (C01.q / C05.d / C06.k) and checker accumulator directions (C06.j)
+CORPUS += [
+    V("C01", "mtvrp-return-constraint-on-open-routes-only", _ME, '+ td["service_time"] + (d_j0 / td["speed"])\n        ) * ~td["open_route"] <= late_tw[..., 0:1]', '+ td["service_time"] + (d_j0 / td["speed"])\n        ) * td["open_route"] <= late_tw[..., 0:1]', "C01.q"),
+    V("C05", "mtvrp-return-constraint-on-open-routes-only-c05", _ME, '+ td["service_time"] + (d_j0 / td["speed"])\n        ) * ~td["open_route"] <= late_tw[..., 0:1]', '+ td["service_time"] + (d_j0 / td["speed"])\n        ) * td["open_route"] <= late_tw[..., 0:1]', "C05.d"),
+    V("C01", "mtvrp-return-leg-subtracted", _ME, 'torch.max(arrival_time, early_tw) + td["service_time"] + (d_j0 / td["speed"])', 'torch.max(arrival_time, early_tw) + td["service_time"] - (d_j0 / td["speed"])', "C01.q"),
+    V("C01", "mtvrp-linehauls-missing-counts-visited", _ME, '(td["demand_linehaul"] * ~td["visited"]).sum(-1) > 0', '(td["demand_linehaul"] * td["visited"]).sum(-1) > 0', "C01.q"),
+    V("C01", "mtvrp-distance-limit-return-for-open-routes", _ME, 'td["current_route_length"] + d_ij + (d_j0 * ~td["open_route"])', 'td["current_route_length"] + d_ij + (d_j0 * td["open_route"])', "C01.q"),
+    V("C06", "mtvrp-checker-clock-runs-backwards", _ME, 'curr_time + dist / td["speed"].squeeze(-1),', 'curr_time - dist / td["speed"].squeeze(-1),', "C06.j"),
+    V("C06", "cvrptw-checker-clock-runs-backwards", R + "cvrptw/env.py", "curr_time + dist", "curr_time - dist", "C06.j"),
+    V("C06", "mtvrp-checker-service-time-subtracted", _ME, 'curr_time + gather_by_index(td["service_time"], next_node)', 'curr_time - gather_by_index(td["service_time"], next_node)', "C06.j"),
+    V("C06", "mtvrp-checker-open-route-flag-polarity", _ME, 'curr_length + dist * ~(td["open_route"].squeeze(-1) & (next_node == 0))', 'curr_length + dist * (td["open_route"].squeeze(-1) & (next_node == 0))', "C06"),
+]
